@@ -1050,6 +1050,11 @@ impl<Writer: Write> Muxer<Writer> {
                 is_key
             }
             VideoCodec::Vp9 => {
+                // A frame shorter than the 3-byte frame marker cannot be a keyframe; it is
+                // caller data (rejected later by the writer), not an internal invariant violation.
+                if data.len() < 3 {
+                    return false;
+                }
                 // Use VP9 keyframe detection
                 let is_key = is_vp9_keyframe(data).unwrap_or(false);
 
